@@ -266,6 +266,7 @@ def execute(sc, ctx):
         i = op["file"]
         p = path(i)
         mid_touched = set()
+        mid_invisible = {}
         if op.get("mid") and kind in ("build_dry", "build_entries"):
             mid = op["mid"]
             reads = [0]
@@ -279,8 +280,12 @@ def execute(sc, ctx):
                     j = mid["file"]
                     ctx.seam.read_hook = None
                     ctx.clock.advance(10**9)
+                    t_before, old_bytes = token(path(j)), cur[j]
                     write(j, fresh(7, len(cur[j]) if mid["same_len"] else None), "same_len" if mid["same_len"] else "diff_len")
                     mid_touched.add(j)
+                    # (inode, mtime, size) all unchanged (clock stepped back earlier): invisible by
+                    # the property's own wording; the row may keep vouching for the old bytes
+                    mid_invisible[j] = (t_before, old_bytes) if token(path(j)) == t_before else None
                     ctx.probe("mutation_during_hashing")
 
             ctx.seam.read_hook = hook
@@ -349,7 +354,10 @@ def execute(sc, ctx):
                     judge(j, got[files[j]].name, got[files[j]].value, "build(dry_run)")
             note_saved([j for j in range(len(files)) if j not in mid_touched])
             for j in mid_touched:
-                row.pop(path(j), None)
+                if mid_invisible.get(j):
+                    row[path(j)] = mid_invisible[j]
+                else:
+                    row.pop(path(j), None)
         elif kind == "build_entries":
             ents = list(build_entries(ws, fs, compute_hash=True, state=state))
             ctx.seam.read_hook = None
@@ -360,7 +368,10 @@ def execute(sc, ctx):
                     judge(j, e.hash_info.name, e.hash_info.value, "build_entries")
             note_saved([j for j in range(len(files)) if j not in mid_touched])
             for j in mid_touched:
-                row.pop(path(j), None)
+                if mid_invisible.get(j):
+                    row[path(j)] = mid_invisible[j]
+                else:
+                    row.pop(path(j), None)
         elif kind == "snap_index":
             old_index = imd5(ibuild(ws, fs), state=state)
             old_index_bytes = dict(cur)
